@@ -90,6 +90,7 @@ def handle (prop : String) (line : String) : String :=
       | "hist" => opHist args res
       | "file" => opFile args res
       | "pix" => opPix args res
+      | "pixframe" => opPixFrame args res
       | "pushbits" => opPushBits args res
       | "threads" => opThreads args res
       | "wasmqr" => opWasmQr args res
